@@ -54,6 +54,9 @@ CHECKS = {
  "C14": dict(cat="model_checking", design="3/C14", technique="TLA+ model of the cached geometric factors (NucParams.tla) checked by TLC over all setter/read histories, bound by history replay against fresh objects; KWN_Trace.tla for zero nucleation at non-positive driving force in runs; Sites.tla (site pools per kind of site shared by all phases of that kind, model-checked over all short occupy/dissolve/re-site histories) bound by Sites_Trace.tla to snapshots of the real _calcNucleationSites; Relations.tla acceptor for zero-propagation, clamps and Clemm-Fisher relations",
              text="Partial claim. Decided: cached factors follow every change (all read-set-read triples + seeded histories, direct and through PrecipitateParameters), rate = 0 whenever dG <= 0 on every step of the suite, zero propagation / Rcrit >= Rmin / incubation factor in [0,1] / scalar = array on a dG grid for 5 site types, available sites = max(pool of the phase's kind of site - occupation by all phases of that kind + parent surface, 0) in integer milli-units for 11 site assignments x 3 parent relations (hence non-negative, shared, non-increasing with occupation by any phase of the kind). Observed under fixed tolerances: Clemm-Fisher identities and monotonicities on a k-grid.",
              note="identities/monotonicities in k and dG are real-analytic facts judged as lt/eq/gt (observation level); known finding: negative barrier on grain-boundary-type sites under the minimum-radius clamp"),
+ "C15": dict(cat="model_checking", design="3/C15", technique="TLA+ state machine of the ShapeFactor object (Shape.tla: description, aspect-ratio mode, finder, callbacks) checked by TLC over all short setter/query histories and bound by trace validation (Shape_Trace.tla) of every history of the same alphabet on real objects; the critical-radius bisection transcribed over exact rationals (Bisect.tla), its root property checked by TLC on a lattice and the real method bound by TLC-as-evaluator equality (same radius, same number of halvings); Relations.tla acceptor for the geometric identities",
+             text="Partial claim. Decided with the specification: the finder always matches the aspect-ratio mode, aspect ratios below 1 are seen as 1 by the factor functions and a sphere ignores them, for every history of setters and queries; the bisection returns a root of R = Rs*factor(R) to its tolerance whenever one is bracketed (432-case lattice), and the real _findRcrit follows the transcription step for step on the lattice and on seeded dyadic cases. Observed under fixed tolerances (Relations.tla): unit volume and requested aspect ratio of the semi-axes, thermodynamic factor = spheroid area / sphere area and kinetic factor = capacitance / sphere radius (scipy quadrature as oracle), value 1 and monotone growth for needle and plate, continuity at aspect ratio 1 for every factor of every shape, scalar = array, below 1 = 1, caller's arrays untouched (float and integer), root of the search with real factor functions.",
+             note="identities are real-analytic facts judged as lt/eq/gt (observation level); the bisection is bound for affine factor functions with dyadic coefficients; cuboidal semi-axes are taken as half-edges of a unit-volume cuboid (product 1), spheroid semi-axes as 4pi/3 abc = 1"),
  "C16": dict(cat="model_checking", design="3/C16", technique="TLA+ state machine of the StrainEnergy object (Elastic.tla: user inputs vs the derived, rotated data compute() works on) checked by TLC over all short setter/update/compute histories; real objects bound by trace validation (Elastic_Trace.tla) of every history of the same alphabet, with the held tensors identified by comparison with all candidates and the final energy compared with a canonically built object; Relations.tla acceptor for the stated identities",
              text="Partial claim. Decided with the specification: the energy does not depend on the order in which rotation, stiffness (6x6 or constants), shape and eigenstrain were supplied -- after every call of every history the tensors the object holds are those of the current inputs, and every compute equals that of a canonically built object. Observed under fixed tolerances (Relations.tla): non-negativity, cube/square scaling, 6x6 = 4th rank, both inversion routines, reduction to the homogeneous inclusion, isotropic-sphere closed form (Eshelby and spherical approximation), Eshelby tensor components, orientation independence, quadrature exactness up to the stated order, rank and modulus round trips.",
              note="identities are real-analytic facts judged as lt/eq/gt (observation level, cubic stiffness, diagonal eigenstrain); open finding: the Lebedev tables are expanded into wrong point sets (rules not exact; Eshelby components and the 6x6 Bohm route deviate with the default rule) -- repair would break three repository tests that pin the faulty values; named deviation outside the property: update() rotates the stored applied stress again on every call"),
@@ -61,7 +64,6 @@ CHECKS = {
 
 NOT_APPLICABLE = {
  "C10": "real-analytic identities of pycalphad-evaluated functions (finite-difference agreement, eigenvalues, Darken relation): no state/history for a TLA+ model to explore, TLC cannot evaluate the functions (DESIGN 4)",
- "C15": "pure real functions (arcsin/log/cube roots) judged against numerical quadrature; not a state-machine question (DESIGN 4)",
 }
 PENDING = "not yet claimed: specification/harness for this property is not built yet in this round (see DESIGN 8 build order)"
 
